@@ -126,7 +126,7 @@ func genC08Client(g *Gen, c int, n int) [][]string {
 		out = append(out, []string{"SELECT", "1"})
 	}
 	for i := 0; i < n; i++ {
-		switch g.r.Intn(29) {
+		switch g.r.Intn(31) {
 		case 0, 1:
 			out = append(out, []string{"INCR", "cnt"})
 		case 2:
@@ -179,6 +179,9 @@ func genC08Client(g *Gen, c int, n int) [][]string {
 			// number live in database 0, odd ones in database 1)
 			own, other := fmt.Sprint(c%2), fmt.Sprint(1-c%2)
 			out = append(out, []string{"MULTI"}, []string{"INCR", "cnt"}, []string{"SELECT", other}, []string{"INCR", "cnt"}, []string{"SELECT", own}, []string{"GET", "cnt"}, []string{"EXEC"})
+		case 28:
+			out = append(out, [][]string{{"SORT", "l" + k(), "ALPHA", "STORE", "l" + k()}, {"SORT", "s" + k(), "ALPHA", "STORE", "l" + k()}, {"INCRBYFLOAT", "fl", g.pick("0.5", "-0.25", "1")},
+				{"HINCRBYFLOAT", "h", "g", g.pick("0.5", "0.1")}, {"LCS", "s", "m1", g.pick("LEN", "IDX")}, {"SORT", "l" + k(), "ALPHA", "LIMIT", "0", "2"}}[g.r.Intn(6)])
 		case 27:
 			// a key watched in the other database
 			own, other := fmt.Sprint(c%2), fmt.Sprint(1-c%2)
@@ -305,7 +308,7 @@ func runC08(cfg runCfg, res *Result) error {
 		wg.Wait()
 		// final observation by a further connection, after everything
 		for _, a := range [][]string{{"GET", "cnt"}, {"GET", "s"}, {"MGET", "m1", "m2", "n1", "n2", "lock", "t"}, {"LRANGE", "lx", "0", "-1"}, {"LRANGE", "ly", "0", "-1"},
-			{"SMEMBERS", "sx"}, {"SMEMBERS", "sy"}, {"SMEMBERS", "sd"}, {"HGET", "h", "f"}, {"GET", "bo"}, {"KEYS", "*"},
+			{"SMEMBERS", "sx"}, {"SMEMBERS", "sy"}, {"SMEMBERS", "sd"}, {"HGET", "h", "f"}, {"HGET", "h", "g"}, {"GET", "fl"}, {"GET", "bo"}, {"KEYS", "*"},
 			{"SELECT", "1"}, {"GET", "cnt"}, {"GET", "s"}, {"LRANGE", "lx", "0", "-1"}, {"SMEMBERS", "sx"}, {"KEYS", "*"}, {"SELECT", "0"}} {
 			t0 := time.Now().UnixNano()
 			nd, err := conns[k].Do(4*time.Second, bs(a...)...)
